@@ -29,7 +29,7 @@ def plan(tier, seed):
     q = tier == "quick"
     for ty in TYPES:
         for part in ("roundtrip", "streams", "hostile"):
-            for i in range((2 if part != "streams" else 1) if q else (8 if part != "streams" else 3)):
+            for i in range((2 if part != "streams" else 1) if q else (60 if part != "streams" else 6)):
                 shards.append(dict(no=no, ty=ty, part=part, idx=i)); no += 1
     return shards
 
